@@ -72,6 +72,7 @@ def gen(t, tier):
           'levels': t.pick(['all', 'all', 'last2', 'first', 'odd', 'range']),
           'coverage': t.weighted([('none', 2), ('bbox', 3), ('lshape', 2), ('multi', 2), ('tiny', 1), ('edge', 4)]),
           'cov_seed': [t.choice(1000), t.choice(1000), t.choice(1000), t.choice(1000)],
+          'cov_srs': t.pick(['3857', '3857', '3857', '4326']),
           'skip_geoms': t.pick([0, 0, 0, 1, 2]), 'verbose': bool(t.choice(2)),
           'work': t.pick([0.0, 0.01, 0.3, 0.6, 2.0, 31.0]),
           'interrupts': []}
@@ -90,8 +91,9 @@ def shrink(sc):
             yield c
     if sc['coverage'] == 'edge':
         pass
-    for key, simple in (('coverage', 'none'), ('meta_size', [1, 1]), ('levels', 'all'), ('skip_geoms', 0), ('verbose', True)):
-        if sc[key] != simple:
+    for key, simple in (('coverage', 'none'), ('cov_srs', '3857'), ('meta_size', [1, 1]), ('levels', 'all'), ('skip_geoms', 0),
+                        ('verbose', True)):
+        if sc.get(key, simple) != simple:
             c = copy.deepcopy(sc)
             c[key] = simple
             yield c
@@ -123,8 +125,36 @@ class Bad(Exception):
         self.msg = msg
 
 
+def _to_lonlat(x, y):
+    """inverse spherical Mercator, written out here (not via mapproxy.srs / pyproj)"""
+    import math
+    R = 6378137.0
+    return math.degrees(x / R), math.degrees(2 * math.atan(math.exp(y / R)) - math.pi / 2)
+
+
 def _coverage_geom(sc, gbbox, grid=None):
-    """returns (seed-conf coverage dict or None, shapely geometry or None, files to write)"""
+    """returns (seed-conf coverage dict or None, shapely geometry or None, files to write); with cov_srs 4326 the same
+    area is configured in geographic coordinates and mapproxy has to transform it into the grid's SRS"""
+    conf, geom, files = _coverage_geom_3857(sc, gbbox, grid)
+    if conf is None or sc.get('cov_srs') != '4326':
+        return conf, geom, files
+    gb = geom.bounds
+    if min(gb) < -0.999 * 20037508.342789244 or max(gb) > 0.999 * 20037508.342789244:
+        return conf, geom, files        # beyond +-180 degrees the area has no geographic spelling: stays in EPSG:3857
+    from shapely.ops import transform
+    conf = dict(conf, srs='EPSG:4326')
+    if 'bbox' in conf:
+        b = conf['bbox']
+        conf['bbox'] = list(_to_lonlat(b[0], b[1]) + _to_lonlat(b[2], b[3]))
+    else:
+        from shapely import wkt
+        files = dict((p, ''.join(transform(lambda x, y, z=None: _to_lonlat(x, y), wkt.loads(line)).wkt + '\n'
+                                 for line in data.splitlines() if line.strip()))
+                     for p, data in files.items())
+    return conf, geom, files
+
+
+def _coverage_geom_3857(sc, gbbox, grid=None):
     from shapely.geometry import box, Polygon, MultiPolygon
     x0, y0, x1, y1 = gbbox
     if sc['coverage'] == 'edge' and grid is not None:
@@ -479,7 +509,7 @@ def run(sc, tape):
             faults[k] = faults.get(k, 0) + 1
     return {'violation': v, 'digest': C.digest_of(sc, w.fs.op_count, round(clock.now, 6), len(handed), info.get('segments')), 'nontrivial': bool(info.get('skipped')), 'steps': probes.get('handed', 0),
             'sim_time': clock.now - 1.7e9, 'faults': faults, 'probes': probes, 'unspecified': info.get('unspecified', 0),
-            'sample': {'grid': sc['gk'], 'levels': sc['levels'], 'coverage': sc['coverage'], 'meta': sc['meta_size'],
+            'sample': {'grid': sc['gk'], 'levels': sc['levels'], 'coverage': sc['coverage'] + ('@4326' if sc.get('cov_srs') == '4326' else ''), 'meta': sc['meta_size'],
                        'handed_uninterrupted': probes.get('handed'),
                        'segments': [{'fired': s['fired'], 'handed': s['handed'], 'resumed': s['resumed_from']}
                                     for s in info.get('segments', [])]}}
